@@ -6,6 +6,11 @@ use rustybgp_packet::Notification;
 use fnv::FnvHashMap;
 use super::*;
 verus! {
+
+#[verifier::external_type_specification]
+#[verifier::external_body]
+pub struct ExUpdateOpaque(rustybgp_packet::bgp::Update);
+
 // ---- packet crate: HoldTime (contract = the one a packet unit proves for HoldTime::*) ---------
 
 pub uninterp spec fn holdtime_secs(h: HoldTime) -> u16;
